@@ -168,6 +168,42 @@ example : SupTy outerTy ∧ Consistent (structsOf outerTy) := by
     rcases h with ⟨h1, h2⟩ | ⟨h1, h2⟩ <;> rcases h' with ⟨h1', h2'⟩ | ⟨h1', h2'⟩ <;>
       first | (exfalso; rw [h1] at h1'; revert h1'; decide) | (rw [h2, h2'])
 
+/-! ### the property itself (value level) — partial
+
+Full statement (kept visible; NOT provable here — `linearcodec` and `encoding/json` are
+third-party code, and it is FALSE on the unchanged code for `bool` / named non-struct fields
+(`c29_counterexample`) and, in the encoding direction, for every *output* type (`dynamic.Marshal`
+searches `abi.Actions` only — known finding `dynamic-marshal-output-type-not-found`):
+
+    theorem dynamic_codec_agrees : ∀ registered T, ∀ v : T,
+      dynamic.Marshal(abi, T, json v) = v.Bytes() ∧ dynamic.Unmarshal(abi, v.Bytes(), T) ≡ json v
+-/
+
+/-- **dynamic_codec_agrees_partial**: for a supported type the dynamically rebuilt type `d`
+exists and *every* function of a Go type that depends on it only through its shape — the
+assumption made about the linear codec's `MarshalInto/UnmarshalFrom` and `json.Marshal/Unmarshal`
+— takes the same value on `d` and on the native type. Value-level equality of bytes and JSON is
+evaluated by the oracle on generated values, not proved. -/
+theorem dynamic_codec_agrees_partial {α : Type} (codec : GoTy → α)
+    (hshape : ∀ a b, shape a = shape b → codec a = codec b)
+    (n : Name) (fs : Fields) (hsup : SupTy (.struct n fs))
+    (hc : Consistent (structsOf (.struct n fs))) :
+    ∃ abi d, describe (.struct n fs) = some abi ∧
+      reflectType abi (depth (.struct n fs) + 1) n = .ok d ∧ codec d = codec (.struct n fs) := by
+  have h := shape_roundtrip n fs hsup hc
+  unfold roundtrip at h
+  cases hd : describe (.struct n fs) with
+  | none => rw [hd] at h; cases h
+  | some abi =>
+    rw [hd] at h
+    simp only [Option.map_some, topName, Option.some.injEq] at h
+    cases hr : reflectType abi (depth (.struct n fs) + 1) n with
+    | error e => rw [hr] at h; cases h
+    | ok d =>
+      rw [hr] at h
+      refine ⟨abi, d, rfl, hr, hshape _ _ ?_⟩
+      simpa [Except.map] using h
+
 /-! ### unsupported kinds -/
 
 /-- **unsupported_reported** (bool): unless the ABI itself defines a type called `bool`,
